@@ -22,7 +22,16 @@ JudgeEdge(e) ==
             C20_auth_rejected_noop  |-> G(~e.ok, e.digest_same),
             C15_config_changes_only_by_accepted_config_message |-> G(e.cfg_changed, e.ok /\ e.msg.kind = "config"),
             M_config_message_changes_config |-> G(e.ok /\ e.msg.kind = "config", e.cfg_changed) ]
+JudgeObj(e) ==
+  IF e.tick
+  THEN [ C15_obj_time_only_unlocks |-> Must(e.src_obs = e.src /\ e.obs = (IF e.src.pos = "closed" THEN [e.src EXCEPT !.pos = "unlocked"] ELSE e.src)) ]
+  ELSE [ C15_obj_replay_reached_source_state |-> Must(e.src_obs = e.src),
+         C15_obj_accepted_iff_authorised |-> Must(e.ok = O!ObjOk(e.src, e.sender, e.m)),
+         C15_obj_only_authorised_accepted |-> G(e.ok, O!ObjOk(e.src, e.sender, e.m)),
+         C15_obj_state_after |-> Must(e.obs = O!ObjAfter(e.src, e.sender, e.m)),
+         C20_obj_rejected_noop |-> G(~e.ok, e.digest_same) ]
 Judge(e) == CASE e.ev = "auth_edge" -> JudgeEdge(e)
+              [] e.ev = "auth_obj_edge" -> JudgeObj(e)
               [] e.ev = "auth_unreachable" -> [ M_source_state_reachable |-> Must(FALSE) ]
               [] e.ev = "reset" -> NoGuards
 Init == l = 1 /\ cnt = NoGuards
